@@ -181,8 +181,8 @@ theorem find_eq (s : PQ π) (key : Nat → Bool) (rm : Bool) :
               simp [h1]
             · arith_absurd
     · simp [hn h, h]
-  · intro x _ hx; simp_all
-  · intro x _ hx; simp_all [Ctl.isExit]
+  · intro it _ hx; first | (simp_all; done) | (simp_all; omega)
+  · intro it _ hx; first | (simp_all [Ctl.isExit]; done) | (simp_all [Ctl.isExit]; omega)
 
 /-- `remove(obj)`: ValueError (state unchanged) when the object is absent; else the priority of the
     model's removed entry and the model's state.  (For a heap library whose `pop` fails on a
@@ -199,7 +199,8 @@ theorem remove_eq (s : PQ π) (x : Nat) :
     generalize s.pq.findIdx (fun e => e.obj == x) = j at hs hn ⊢
     by_cases h : j < s.pq.length
     · obtain ⟨e, he, hqe, hf⟩ := hs h
-      simp only [hf, h, he, hqe, if_true, lt_eq]
+      have hqe' : e.obj = x := by simpa using hqe
+      simp only [hf, h, he, hqe', beq_self_eq_true, if_true, lt_eq]
       have hlast : s.pq.getLast? = s.pq[s.pq.length - 1]? := List.getLast?_eq_getElem?
       by_cases hj : j = 0
       · -- the head: `heappop`
@@ -236,8 +237,8 @@ theorem remove_eq (s : PQ π) (x : Nat) :
                 generalize H.heapify (Entry.lt plt) _ = d
                 cases d <;> simp
     · simp [hn h, h]
-  · intro it _ hx; simp_all
-  · intro it _ hx; simp_all [Ctl.isExit]
+  · intro it _ hx; first | (simp_all; done) | (simp_all; omega)
+  · intro it _ hx; first | (simp_all [Ctl.isExit]; done) | (simp_all [Ctl.isExit]; omega)
 
 /-- `reschedule(key, new_priority)`: the object found (or `None`) and the model's state — the
     entry is changed in place, at the index it was read from, and keeps its sequence number -/
